@@ -109,6 +109,28 @@ def probe(seed):
             bad.append(["raises record", [c.__name__ for c in decl], [c.__name__ for c in ra[0].exceptions] if ra else None])
         if len(ha) != 1 or set(ha[0].markers) != {"stdout", "custom"}: bad.append(["has record", sorted(ha[0].markers) if ha else None])
         if len(re_) != 1 or re_[0].event is not ValueError: bad.append(["reason record", repr(getattr(re_[0], "event", None)) if re_ else None])
+    # a record reports the exception that is raised and the configured message, however they were given (class / instance, with / without message)
+    class Negative(Exception): pass
+    for exc in (None, ValueError, Negative, ValueError("text"), Negative("neg"), Negative()):
+        for msg in (None, "msg", ""):
+            kw = {}
+            if exc is not None: kw["exception"] = exc
+            if msg is not None: kw["message"] = msg
+            @deal.pre(lambda x: x > 0, **kw)
+            def p(x): return x
+            @deal.post(lambda r: r > 0, **kw)
+            def q(x): return x
+            @deal.ensure(lambda x, result: result > 0, **kw)
+            def e(x): return x
+            for fn in (p, q, e):
+                rec = list(di.get_contracts(fn))[0]
+                try: fn(-1); raised = None
+                except BaseException as err: raised = err
+                et = rec.exception_type
+                if not isinstance(et, type) or type(raised) is not et:
+                    bad.append(["record.exception_type", fn.__name__, repr(exc), repr(msg), repr(et), type(raised).__name__])
+                if rec.message != msg and not (msg == "" and rec.message in (None, "")):
+                    bad.append(["record.message", fn.__name__, repr(exc), repr(msg), repr(rec.message)])
     # pre-initialising inherited contracts changes no later outcome (the overriding method has other defaults / an extra parameter)
     for _ in range(20):
         d1, d2 = rnd.randint(5, 15), rnd.randint(50, 150)
